@@ -57,11 +57,22 @@ class Fragment:
                 return self.name, self.end, othr.name, othr.start
             elif othr.strand == -1:
                 #      fwd >>>                          <<< rev
-                return self.name, self.end, othr.end, othr.name
+                # Tail-to-tail: order the two ends so that the junction is
+                # encoded identically when the scaffold is reversed.
+                (n1, e1), (n2, e2) = sorted(
+                    ((self.name, self.end), (othr.name, othr.end))
+                )
+                return n1, e1, e2, n2
         elif self.strand == -1:
             if othr.strand == 1:
                 #                    <<< rev  fwd >>>
-                return self.start, self.name, othr.name, othr.start
+                # Head-to-head: order the two ends so that the junction is
+                # encoded identically when the scaffold is reversed.
+                (n1, s1), (n2, s2) = sorted(
+                    ((self.name, self.start), (othr.name, othr.start)),
+                    reverse=True,
+                )
+                return s1, n1, n2, s2
             elif othr.strand == -1:
                 # For the rev-rev case, junction should match fwd-fwd
                 #      rev >>>              rev >>>
